@@ -130,7 +130,23 @@ fn replica_far(ctx: &mut Ctx, r: &mut Rng, variant: u64) -> Result<(), Fail> {
     if held_pages.len() >= 2 && (0..*held_pages.iter().max().unwrap()).any(|p| !held_pages.contains(&p)) {
         ctx.count("replica_blocks_in_two_pages_with_gap_page");
     }
-    // clear on the replica of a held block far out, then reopen
+    // a clear on the replica that straddles a page it never populated
+    if nl > 65_536 {
+        let (cs, ce) = (4u64, 66_000u64);
+        match crate::exec::call(rep.core().clear(cs, ce)) {
+            Ok(Ok(())) => {
+                rep.model.clear(cs, ce);
+                ctx.count("replica_clear_across_unpopulated_page");
+                rep.check(CMP_ALL, 32, "after replica clear across a gap page")?;
+            }
+            Ok(Err(e)) => {
+                // a sparse replica may lack the nodes to locate the bytes: not claimed
+                ctx.count("replica_clear_refused");
+                ctx.notes.push(format!("replica clear refused: {e}"));
+            }
+            Err(p) => return Err(crate::ops::fail(format!("replica-clear:panic:{}", crate::exec::panic_sig(&p)), p)),
+        }
+    }
     rep.reopen()?;
     rep.check(CMP_ALL, 32, "final reopen")?;
     Ok(())
